@@ -90,7 +90,7 @@ pub enum AOp {
     Len,
     CloneGen,
     /// from_str_bytes of text form (mode 0 auto, 1 Some(Empty), 2 Some(WithVersion)); edit = optional (pos, byte) making it malformed
-    ParseText { mode: u8, strip: bool, edit: Option<(u16, u8)>, cut: u8 },
+    ParseText { mode: u8, strip: bool, edit: Option<(u16, u8)>, cut: u8, lower: bool },
     /// TryFrom<&[u8]> with length SIZE+delta
     ParseBin { delta: i8 },
     StoreBin { delta: i8 },
@@ -231,9 +231,14 @@ fn run<K: Kind>(h: &Hist) -> RunOut {
                 g2 = Some(c);
                 n
             }
-            AOp::ParseText { mode, strip, edit, cut } => {
+            AOp::ParseText { mode, strip, edit, cut, lower } => {
                 text_scratch.clear();
                 text_scratch.extend_from_slice(&text1);
+                if *lower {
+                    for b in text_scratch.iter_mut().skip(2) {
+                        *b = b.to_ascii_lowercase();
+                    }
+                }
                 if *strip {
                     text_scratch.drain(..2);
                 }
@@ -375,6 +380,7 @@ fn draw_aop(r: &mut Rng, dlen: usize) -> AOp {
             strip: r.chance(1, 3),
             edit: if r.chance(1, 2) { Some((r.below(140) as u16, *r.pick(&[b'g', b'@', b'T', b't', b'2', 0xff, b' ', b'f']))) } else { None },
             cut: if r.chance(1, 5) { r.range(1, 3) as u8 } else { 0 },
+            lower: r.chance(1, 3),
         },
         59..=64 => AOp::ParseBin { delta: *r.pick(&[0i8, 0, 0, -1, 1, 5, -5]) },
         65..=70 => AOp::StoreBin { delta: *r.pick(&[0i8, 0, -1, 1, 64, -64]) },
@@ -493,7 +499,7 @@ impl Scenario for C18 {
                 AOp::Finalize(o) => json!(["finalize", o]),
                 AOp::Len => json!(["len"]),
                 AOp::CloneGen => json!(["clone"]),
-                AOp::ParseText { mode, strip, edit, cut } => json!(["parse_text", mode, strip, edit.map(|(p, b)| vec![p as u64, b as u64]), cut]),
+                AOp::ParseText { mode, strip, edit, cut, lower } => json!(["parse_text", mode, strip, edit.map(|(p, b)| vec![p as u64, b as u64]), cut, lower]),
                 AOp::ParseBin { delta } => json!(["parse_bin", delta]),
                 AOp::StoreBin { delta } => json!(["store_bin", delta]),
                 AOp::StoreStr { prefix, delta } => json!(["store_str", prefix, delta]),
@@ -529,6 +535,7 @@ impl Scenario for C18 {
                     strip: b(2)?,
                     edit: a[3].as_array().map(|p| (p[0].as_u64().unwrap_or(0) as u16, p[1].as_u64().unwrap_or(0) as u8)),
                     cut: u(4)? as u8,
+                    lower: a.get(5).and_then(|x| x.as_bool()).unwrap_or(false),
                 },
                 "parse_bin" => AOp::ParseBin { delta: s(1)? as i8 },
                 "store_bin" => AOp::StoreBin { delta: s(1)? as i8 },
